@@ -361,7 +361,14 @@ fn apply_fault(links: &mut Vec<Link>, f: u16, k: usize, aux: usize) -> (bool, bo
                     None => return (false, true, ""),
                 },
             };
-            s.speed_params = vec![SpeedParam { limit_val: [-1.0, nan, 3.5][aux % 3], limit_type: LimitType::AxleCount, compare_type: CompareType::TpGreaterThanRp }];
+            // (one rule at a time: a fractional count only for the axle gate, and a NaN / negative
+            // threshold on the mass gates too, where no integer rule can catch it instead)
+            let (limit_type, limit_val) = match (aux / 3) % 3 {
+                0 => (LimitType::AxleCount, [-1.0, nan, 3.5][aux % 3]),
+                1 => (LimitType::MassTotal, [-1.0, nan][aux % 2]),
+                _ => (LimitType::MassPerBrake, [-1.0, nan][aux % 2]),
+            };
+            s.speed_params = vec![SpeedParam { limit_val, limit_type, compare_type: CompareType::TpGreaterThanRp }];
             (true, true, "speed-param-malformed")
         }
         _ => {
